@@ -10,16 +10,17 @@ CLAIM = {
           'General (unbounded) results: events_cover + events_inside_record (genEvents reads exactly the indirect word and '
           'the selected channels of the selected frames of a record, in order, inside the record); rle_lookup + '
           'index_data_record (frame -> record position and offset; records appended with whole frame counts); '
-          'index_lists_all; setFrameSet_values_allchannels_partial (direct X, channel list None, ANY number of data '
-          'records at increasing positions, every slice/step: the load succeeds and row i is exactly the words of all '
-          'channels of frame start+i*step, via the grouping/sorted-order lemma for _retFrameSetMap and induction over the '
-          'map entries); reads_inside_selected_records (any channels, direct or indirect X: every seek/read of a '
+          'index_lists_all; setFrameSet_values (direct X, ANY number of data records at increasing positions, every '
+          'slice/step, EVERY channel list: the load succeeds, the frame set holds the sorted distinct requested channels '
+          'plus X, and row i is exactly the words of those channels of frame start+i*step, i.e. the sub-matrix of the '
+          'full frame set; via the grouping/sorted-order lemma for _retFrameSetMap, induction over the map entries and '
+          'the (chFrom, chTo) run labelling of every read event against setFrameBytes); reads_inside_selected_records (any channels, direct or indirect X: every seek/read of a '
           'successful load lies inside a record that holds a requested frame); setFrameSet_history_independent + '
           'setFrameSet_after_any_load; implied_x_events_partial + extrapolate_rule_first/later (the EXTRAPOLATE events of '
           'a record for every channel list, and the rule each one applies: this is the F7 wrong-value rule); '
           'kernel-evaluated witnesses incl. implied_x_f7_witness (negation of the implied-X clause on the current code). '
-          'Not proved in general: setFrameSet_values for proper channel subsets, and the composition of the implied-X '
-          'rules over renumbering/all records (implied_x_partial / implied_x_wrong_iff); these are covered by the '
+          'Not proved in general: the composition of the implied-X rules over renumbering and all records for indirect X '
+          '(implied_x_partial / implied_x_wrong_iff; the per-record events and the per-event rule are proved); this is covered by the '
           'correspondence of the model with the code on generated LIS files (index entries, loaded words, implied X '
           'vector, file operation trace, genEvents tuples) and by the property oracle evaluated on the implementation '
           'alone against the generator\'s ground truth.'),
